@@ -2539,7 +2539,8 @@ def check_C02(tier, seed):
             pid_ += 1
     pairs_ += gpairs if tier != "quick" else rnd.sample(gpairs, min(len(gpairs), 25))
     # one state with character, range and `_` transitions at once, overlapping in every way
-    arms = F.arm_family(seed, sizes(tier, 120, 500), 500000)
+    arms = (F.arm_family(seed, sizes(tier, 120, 500), 500000)
+            + F.arm_family(seed + 1, sizes(tier, 100, 500), 510000))
     allp = progs + big + classes + pairs_ + arms
     byid = {p.id: p for p in allp}
     ws, dumps, outs, ok, err = dump_programs("C02", allp, nb=14)
